@@ -4,16 +4,19 @@ the tail of Scan, run on the case lines of harness/cmd/c20gen (grammar documente
 SPECIFICATION's verdict for the violation search.
 
 reply (model):  st=<ok|failed> err=<none|ctx|nilf|noadv|noid|mismatch> calls=<names> idx=<observation of the index|-> idxsame=1
-                find=<sorted findings> sorted=1 plug=<sorted name:status> plugsorted=1 pk=<sorted package ids>
+                find=<findings IN EMITTED ORDER> findset=<the same, canonically sorted> fkeys=<their sort keys hexref/hexextra in emitted order>
+                plug=<name:status IN EMITTED ORDER> plugset=<sorted> plugkeys=<hex names in emitted order> pk=<sorted package ids>
                 mut=0 (the objects the detectors returned are never written to)
                 | panic
        (spec):  wf=<no detector cancels> cons=<findings consistent: no nil entry, advisories with IDs, equal IDs = equal advisories>
                 exf=<extractors emitted findings> sst=<ok|failed> sfind=<sorted findings> sdet=<detector statuses>
                 sidx=<index observation computed by filtering the extracted packages> scalls=<names>
+                sfkeys / splugkeys = the documented order: the sorted key sequences of the specified findings / statuses
 -/
 import Scalibr.Base.Wire
 import Scalibr.Base.Sort
 import Scalibr.Spec.Detector
+import Scalibr.Spec.Phases
 open Scalibr Scalibr.Wire Scalibr.Index Scalibr.Detector
 
 def sdrop1 (s : String) : String := String.ofList (s.toList.drop 1)
@@ -37,11 +40,16 @@ def parsePkg (s : String) : Option PSpec :=
 
 def parsePkgs (s : String) : Option (List PSpec) := (listOf s ",").mapM parsePkg
 
+/-- a byte string travels hex-encoded ("-" = empty) -/
+def bytesOf? (s : String) : Option (List Nat) :=
+  if s = "-" then some [] else (bytesOfHex s).map fun bs => bs.map (·.toNat)
+def hexB (bs : List Nat) : String := if bs.isEmpty then "-" else hexOfBytes (bs.map UInt8.ofNat)
+
 def parseAdv (s : String) : Option (Option Adv) :=
   if s = "n" then some none
   else if s.startsWith "i" then (sdrop1 s).toNat?.map fun b => some ⟨none, b⟩
   else match s.splitOn "." with
-    | [p, r, b] => match p.toNat?, r.toNat?, b.toNat? with
+    | [p, r, b] => match p.toNat?, bytesOf? r, b.toNat? with
       | some p, some r, some b => some (some ⟨some (p, r), b⟩)
       | _, _, _ => none
     | _ => none
@@ -50,7 +58,7 @@ def parseAdv (s : String) : Option (Option Adv) :=
 def parseFinding (s : String) : Option (Option Finding) :=
   if s = "z" then some none else
   match s.splitOn "@" with
-  | [p, a, e] => match p.toNat?, parseAdv a, e.toNat? with
+  | [p, a, e] => match p.toNat?, parseAdv a, bytesOf? e with
     | some p, some a, some e => some (some ⟨p, a, p, e, ["stale"]⟩)
     | _, _, _ => none
   | _ => none
@@ -138,10 +146,18 @@ def runRoot (nfx : Nat) (files : List FileSpec) (acc : FsAcc) : FsAcc :=
 def advStr : Option Adv → String
   | none => "n"
   | some ⟨none, b⟩ => s!"i{b}"
-  | some ⟨some (p, r), b⟩ => s!"{p}.{r}.{b}"
+  | some ⟨some (p, r), b⟩ => s!"{p}.{hexB r}.{b}"
 
 def findingStr (f : Finding) : String :=
-  s!"{f.ptr}@{advStr f.adv}@{f.extra}@loc{f.target}@{joinWith "+" (f.detectors.map hexE)}"
+  s!"{f.ptr}@{advStr f.adv}@{hexB f.extra}@loc{f.target}@{joinWith "+" (f.detectors.map hexE)}"
+
+/-- the sort key of a finding as printed in `fkeys`: <hexref>/<hexextra> -/
+def keyStr : Option (List Nat × List Nat) → String
+  | some (r, e) => s!"{hexB r}/{hexB e}"
+  | none => "?"
+
+/-- "%03d" -/
+def pad3 (n : Nat) : List Nat := [48 + n / 100 % 10, 48 + n / 10 % 10, 48 + n % 10]
 
 def statusStr (s : Status) : String :=
   s.name ++ ":" ++ (match s.st with | .succeeded => "ok" | .partially => "partial" | .failed => "failed")
@@ -162,6 +178,33 @@ def observe (types names : List String) (all : List Pkg) (ofType : String → Li
 def errStr : Option RunErr → String
   | none => "none" | some .ctx => "ctx" | some .nilFinding => "nilf" | some .noAdvisory => "noadv" | some .noID => "noid" | some (.mismatch _) => "mismatch"
 
+/-! ### `phases` cases:  phases <before 0|1> <nfx> <roots> <standalone> <detectors>
+  roots := root ('|' root)*   root := '-' | entry (';' entry)*   entry := 'n' | call (',' call)*   call := <extractor digit><ret>['~']
+  standalone, detectors := '-' | plugin ('|' plugin)*             plugin := <ret>['~']
+  ret := 'o' (nil) | 'e' (an error) | 'c' (ctx.Err())             '~' = cancels the scan's context while running
+reply: started=<names in start order> st=<ok|failed> pst=<standalone/detector statuses in the result, by name>
+       sstarted=<spec> sall=<whole schedule> smustfail=<an iteration was left out> sworkleft=<a plugin call was left out> -/
+def retOf? : Char → Option Phases.Ret
+  | 'o' => some .ok | 'e' => some .err | 'c' => some .ctxErr | _ => none
+
+def parsePhCall (s : String) : Option (Nat × Phases.Ret × Bool) :=
+  match s.toList with
+  | [x, r] => if x.isDigit then (retOf? r).map fun r => (x.toNat - 48, r, false) else none
+  | [x, r, '~'] => if x.isDigit then (retOf? r).map fun r => (x.toNat - 48, r, true) else none
+  | _ => none
+
+def parsePhEntry (s : String) : Option (List (Nat × Phases.Ret × Bool)) :=
+  if s = "n" then some [] else (s.splitOn ",").mapM parsePhCall
+
+def parsePhRoot (s : String) : Option (List (List (Nat × Phases.Ret × Bool))) := (listOf s ";").mapM parsePhEntry
+
+def parsePhPlugins (pre : String) (s : String) : Option (List Phases.Plugin) :=
+  ((listOf s "|").zip (List.range (listOf s "|").length)).mapM fun (t, i) =>
+    match t.toList with
+    | [r] => (retOf? r).map fun r => (⟨s!"{pre}{i}", r, false⟩ : Phases.Plugin)
+    | [r, '~'] => (retOf? r).map fun r => (⟨s!"{pre}{i}", r, true⟩ : Phases.Plugin)
+    | _ => none
+
 def handle (line : String) : String :=
   match line.splitOn " " with
   | ["scan", nfx, roots, sts, dets] =>
@@ -181,7 +224,7 @@ def handle (line : String) : String :=
         let ((spec, err, canc), k) := d
         let scan : PkgMap → List (Option Finding) × Bool := match spec with
           | .const fs => fun _ => (fs, err)
-          | .query t n a => fun px => ((getSpecific px n t).map fun p => some ⟨1000 + 100 * k + p.id, a, 1000 + 100 * k + p.id, p.id, ["stale"]⟩, err)
+          | .query t n a => fun px => ((getSpecific px n t).map fun p => some ⟨1000 + 100 * k + p.id, a, 1000 + 100 * k + p.id, pad3 p.id, ["stale"]⟩, err)
         (⟨s!"det{k}", scan, canc⟩ : Detector)
       let ds := (dets.zip (List.range dets.length)).map mkDet
       let inp : ScanIn := ⟨fsAcc.pkgs, fsAcc.findings, fsAcc.status, stAcc.pkgs, stAcc.findings, stAcc.status, ds⟩
@@ -198,15 +241,33 @@ def handle (line : String) : String :=
       let cons := consistentB (specFindings ds px)
       let nocancel := ds.all fun d => !d.cancels
       let sfind := exF ++ (if cons then (specFindings ds px).filterMap id else [])
+      -- the documented order, computed on KEYS only (a strict total order: the sorted sequence is unique)
+      let sfkeys := isort optKeyLt (sfind.map sortKey)
+      let splug := isort ltBytes ((inp.fsStatus ++ inp.stStatus ++ specStatus ds px).map fun (s : Status) => nameBytes s.name)
       let model :=
         if out.panics then "panic" else
         s!"st={if out.failed then "failed" else "ok"} err={errStr out.err} calls={joinWith "," (out.calls.map (·.1))} idx={idx} idxsame=1 " ++
-        s!"find={joinWith "," (sortStrs (out.findings.map findingStr))} sorted=1 " ++
-        s!"plug={joinWith "," (sortStrs (out.pluginStatus.map statusStr))} plugsorted=1 pk={idsStr out.packages true} mut=0"
+        s!"find={joinWith "," (out.findings.map findingStr)} findset={joinWith "," (sortStrs (out.findings.map findingStr))} " ++
+        s!"fkeys={joinWith "," (out.findings.map fun f => keyStr (sortKey f))} " ++
+        s!"plug={joinWith "," (out.pluginStatus.map statusStr)} plugset={joinWith "," (sortStrs (out.pluginStatus.map statusStr))} " ++
+        s!"plugkeys={joinWith "," (out.pluginStatus.map fun s => hexB (nameBytes s.name))} pk={idsStr out.packages true} mut=0"
       model ++ s!" wf={boolStr nocancel} cons={boolStr cons} exf={boolStr (!exF.isEmpty)} " ++
         s!"sst={if cons then "ok" else "failed"} sfind={joinWith "," (sortStrs (sfind.map findingStr))} " ++
+        s!"sfkeys={joinWith "," (sfkeys.map keyStr)} splugkeys={joinWith "," (splug.map hexB)} " ++
         s!"sdet={joinWith "," ((specStatus ds px).map statusStr)} sidx={sidx} scalls={joinWith "," (ds.map (·.name))}"
     | _, _, _, _ => "bad-op"
+  | ["phases", before, nfx, roots, sts, dets] =>
+    match boolOf? before, nfx.toNat?, (roots.splitOn "|").mapM (parsePhRoot ·), parsePhPlugins "sx" sts, parsePhPlugins "det" dets with
+    | some before, some nfx, some roots, some sts, some dets =>
+      let roots := (roots.zip (List.range roots.length)).map fun (r, ri) =>
+        (r.zip (List.range r.length)).map fun (e, fi) => e.map fun (x, ret, c) => (⟨s!"fx{x}@r{ri}f{fi}", ret, c⟩ : Phases.Plugin)
+      let out := Phases.scan before nfx roots sts dets
+      let us := Phases.schedule nfx roots sts dets
+      let stS := fun (l : List (String × Bool)) => joinWith "," (l.map fun (n, f) => s!"{n}:{if f then "failed" else "ok"}")
+      s!"started={joinWith "," out.started} st={if out.failed then "failed" else "ok"} pst={stS out.status} " ++
+      s!"sstarted={joinWith "," (Phases.specStarted before us)} sall={joinWith "," (Phases.names us)} " ++
+      s!"smustfail={boolStr (!(Phases.specRemaining before us).isEmpty)} sworkleft={boolStr (Phases.specStarted before us != Phases.names us)}"
+    | _, _, _, _, _ => "bad-op"
   | _ => "bad-op"
 
 def main : IO Unit := serve handle
